@@ -17,6 +17,7 @@ import (
 	"sync"
 	"syscall"
 	"time"
+	"unsafe"
 
 	"github.com/goblimey/go-ntrip/rtcm/handler"
 	"github.com/goblimey/go-ntrip/rtcm/testdata"
@@ -298,13 +299,39 @@ func runAppProcess(c *child.Ctx, bin string, args []string, stdin []byte, k appC
 		// a small pipe: the application's writes block until the monitor reads
 		syscall.Syscall(syscall.SYS_FCNTL, outW.Fd(), 1031 /* F_SETPIPE_SZ */, 4096)
 	}
-	var inW, inR *os.File
+	var inW, inR, ptyMaster *os.File
 	if k.StdinMode == "file" {
 		p := filepath.Join(dir, "stdin.bin")
 		os.WriteFile(p, stdin, 0644)
 		f, _ := os.Open(p)
 		cmd.Stdin = f
 		defer f.Close()
+	} else if k.StdinMode == "devnull" {
+		// a character device that is not a terminal: the input is empty
+		f, _ := os.Open(os.DevNull)
+		cmd.Stdin = f
+		defer f.Close()
+	} else if k.StdinMode == "pty" {
+		// a pseudo-terminal in its default (canonical) mode, as when the program reads a
+		// serial console or is started from a terminal with text typed or pasted in: the
+		// caller supplies complete lines of plain text; the end of the input is ^D
+		m, s, err := openPty()
+		if err != nil {
+			res.Stderr = "no pseudo-terminal available: " + err.Error()
+			res.ExitCode = -2
+			return res
+		}
+		inR, inW, ptyMaster = s, m, m
+		cmd.Stdin = s
+		defer m.Close()
+		go func() { // what the terminal echoes is of no interest, but must not pile up
+			b := make([]byte, 4096)
+			for {
+				if _, e := m.Read(b); e != nil {
+					return
+				}
+			}
+		}()
 	} else {
 		if k.StdinNonblock {
 			// os.Pipe's files are marked non-blocking inside Go and every Fd() call - also
@@ -380,7 +407,11 @@ func runAppProcess(c *child.Ctx, bin string, args []string, stdin []byte, k appC
 				}
 				tick()
 			}
-			inW.Close()
+			if ptyMaster != nil {
+				inW.Write([]byte{4}) // ^D at the start of a line: end of input; the terminal stays open
+			} else {
+				inW.Close()
+			}
 			wroteMu.Lock()
 			inputEnded = time.Now()
 			wroteMu.Unlock()
@@ -1318,3 +1349,27 @@ func firstDiff(got, want []byte) string {
 
 var _ = io.EOF
 var _ = handler.Analyse
+
+// openPty opens a new pseudo-terminal pair (Linux: /dev/ptmx, TIOCSPTLCK, TIOCGPTN).
+func openPty() (master, slave *os.File, err error) {
+	m, err := os.OpenFile("/dev/ptmx", os.O_RDWR|syscall.O_NOCTTY, 0)
+	if err != nil {
+		return nil, nil, err
+	}
+	var unlock int32
+	if _, _, e := syscall.Syscall(syscall.SYS_IOCTL, m.Fd(), syscall.TIOCSPTLCK, uintptr(unsafe.Pointer(&unlock))); e != 0 {
+		m.Close()
+		return nil, nil, e
+	}
+	var n uint32
+	if _, _, e := syscall.Syscall(syscall.SYS_IOCTL, m.Fd(), syscall.TIOCGPTN, uintptr(unsafe.Pointer(&n))); e != 0 {
+		m.Close()
+		return nil, nil, e
+	}
+	s, err := os.OpenFile(fmt.Sprintf("/dev/pts/%d", n), os.O_RDWR|syscall.O_NOCTTY, 0)
+	if err != nil {
+		m.Close()
+		return nil, nil, err
+	}
+	return m, s, nil
+}
